@@ -245,10 +245,10 @@ func (ex *Exec) execReturn(s *ast.ReturnStmt, st *State) *Flow {
 			g := ex.evalBool(e, st.fork(st.pc))
 			ex.suppress--
 			ex.facts = append(ex.facts, g)
-			if ex.prog.Axioms[f.fi.Pkg.Name+"."+c.ID] {
+			if ex.prog.Axioms[lemmaKey(f.fi.Pkg.Name, c.ID)] {
 				ex.assumptions["AXIOM "+f.fi.Pkg.Name+"."+c.ID+" (assumed, see the contract file)"] = true
 			} else {
-				ex.usedContracts["lemma "+f.fi.Pkg.Name+"."+c.ID] = true
+				ex.usedContracts["lemma "+lemmaKey(f.fi.Pkg.Name, c.ID)] = true
 			}
 		}
 		for _, w := range ex.recursing.blk.Witnesses {
